@@ -58,6 +58,7 @@ are observed only at run time (race detector in `checks/C17.py`).
 -/
 import MpcVerif.Proofs.PoolGarble
 import MpcVerif.Proofs.PoolGC
+import MpcVerif.Proofs.PoolResult
 import MpcVerif.Props.C01
 
 namespace Mpc.Pool
@@ -557,5 +558,69 @@ theorem C17_contract_needed_value_copy :
 second `relBegin` on a handle in use, and `copyHandle`, are refused). -/
 example : runSched unitParams true (init unitParams) racyReleaseSched = none := by decide
 example : runSched unitParams true (init unitParams) valueCopySched = none := by decide
+
+section Results
+open Mpc.Pool.Res
+
+/-! ## Results of `Compute` are values the caller owns (result histories) -/
+
+/-- **Ownership of results**: along every history of `Compute` calls on one
+circuit value, starting from any state, no object that already exists -- in
+particular nothing reachable from a result an earlier call returned -- is
+written: the heap cell keeps its content. -/
+theorem C17_compute_result_memory_never_written (c : Circuit) (widths : List Nat) (st : St)
+    (later : List (List Bool)) (a : Nat) (ha : a < st.heap.length) :
+    (run .fresh c widths st later).heap[a]? = st.heap[a]? := by
+  obtain ⟨e, he⟩ := run_fresh_heap c widths st later
+  rw [he, List.getElem?_append_left ha]
+
+example : (run .fresh ⟨3, 2, 1, [⟨.xor, 0, 1, 2⟩]⟩ [1] {} [[true, false]]).heap.length = 1 := by decide
+
+/-- **Result retention**: for every history `before ++ x :: later` of calls
+(any number of earlier and later calls, any inputs; whole calls in any serial
+order = every interleaving, `Compute` writing no shared state), the result the
+call on `x` returned, read by its keeper after all the later calls, is the value
+`Compute` returns on `x` when run alone. -/
+theorem C17_compute_result_retained (c : Circuit) (widths : List Nat)
+    (before later : List (List Bool)) (x : List Bool) :
+    readRes (run .fresh c widths {} (before ++ x :: later)) before.length =
+      some (computeVal c widths x) ∧
+    readRes (run .fresh c widths {} [x]) 0 = some (computeVal c widths x) := by
+  refine ⟨?_, by simp [run, call, readRes]⟩
+  rw [run_append, run_cons]
+  obtain ⟨s0, hs0⟩ : ∃ s0, s0 = run .fresh c widths {} before := ⟨_, rfl⟩
+  rw [← hs0]
+  have hlen : s0.rets.length = before.length := by
+    rw [hs0, run_fresh_rets_length]; simp
+  obtain ⟨s1, hs1⟩ : ∃ s1, s1 = call .fresh c widths s0 x := ⟨_, rfl⟩
+  rw [← hs1]
+  have hr1 : s1.rets = s0.rets ++ [s0.heap.length] := by rw [hs1]; rfl
+  have hh1 : s1.heap = s0.heap ++ [computeVal c widths x] := by rw [hs1]; rfl
+  obtain ⟨e, he⟩ := run_fresh_rets c widths s1 later
+  have hk : (run .fresh c widths s1 later).rets[before.length]? = some s0.heap.length := by
+    rw [he, hr1, List.append_assoc, ← hlen, List.getElem?_append_right (Nat.le_refl _)]
+    simp
+  have ha : s0.heap.length < s1.heap.length := by rw [hh1]; simp
+  have hm := C17_compute_result_memory_never_written c widths s1 later s0.heap.length ha
+  unfold readRes
+  rw [hk]
+  show (run .fresh c widths s1 later).heap[s0.heap.length]? = _
+  rw [hm, hh1, List.getElem?_append_right (Nat.le_refl _)]
+  simp
+
+/-- Executed instance: three calls on a 2-output circuit, the first result read at the end. -/
+example : readRes (run .fresh ⟨4, 2, 2, [⟨.xor, 0, 1, 2⟩, ⟨.and, 0, 1, 3⟩]⟩ [1, 1] {}
+    [[true, false], [true, true], [false, false]]) 0 = some [1, 0] := by decide +kernel
+
+/-- **Witness** (the statement needs freshness): when the returned object aliases
+scratch that goes back to a pool at the end of the call, a later call on the
+same circuit value changes the earlier call's result. -/
+theorem C17_pooled_result_alias_breaks_retention :
+    ∃ (c : Circuit) (widths : List Nat) (x y : List Bool),
+      readRes (run .pooled c widths {} [x]) 0 = some (computeVal c widths x) ∧
+      readRes (run .pooled c widths {} [x, y]) 0 ≠ some (computeVal c widths x) :=
+  ⟨⟨3, 2, 1, [⟨.xor, 0, 1, 2⟩]⟩, [1], [true, false], [false, false], by decide +kernel, by decide +kernel⟩
+
+end Results
 
 end Mpc.Pool
